@@ -210,6 +210,11 @@ Proof. intros a b a' b' k Hk. apply max_apply_lip. exact Hk. Qed.
 Theorem lip1_union2 : forall mk l o, minK_ok mk -> (mk = MinDef -> prune_ok2 l) ->
   k_union2 mk l = Some o -> Forall (fun x => lip1_2 (ev2 x)) l -> lip1_2 (ev2 o).
 Proof. exact LipR.lip1_union2. Qed.
+(* the pruning hypotheses follow from the operand classes of C01 (box ordered and enclosing, value at least
+   the distance to the box) for 1-Lipschitz operands with a point of their solid in their box *)
+Theorem prune_hypotheses_dischargeable : forall l, Forall prune_operand_ok l -> prune_ok2 l.
+Proof. exact prune_ok2_intro. Qed.
+Print Assumptions prune_hypotheses_dischargeable.
 Theorem lip1_union3 : forall mk l o, minK_ok mk -> k_union3 mk l = Some o ->
   Forall (fun x => lip1_3 (ev3 x)) l -> lip1_3 (ev3 o).
 Proof. exact LipR.lip1_union3. Qed.
